@@ -243,6 +243,11 @@ func lineModel(e *Env, r *Report, prop string) {
 			}()
 			var rd io.Reader = strings.NewReader(text)
 			msg := strings.TrimSuffix(text, "\n")
+			if i%6 == 3 && !strings.Contains(msg, "\n") {
+				// a log with CR LF line ends (saved by a foreign editor, pasted from a report): the CR is not part of the record
+				rd = strings.NewReader(msg + "\r\n")
+				route = "file-crlf"
+			}
 			if !strings.Contains(msg, "\n") && i%3 != 0 {
 				// through the journald carrier: a JSON string when the line is printable UTF-8 (and every
 				// sixth time anyway), an array of bytes otherwise
